@@ -206,7 +206,7 @@ def stopAt (l : Nat) : List Tok → Bool
   | [] => true
   | .rp :: _ => true
   | .kw op :: _ => decide (op.lvl < l)
-  | _ => false
+  | t :: _ => t.endsExpr
 
 theorem stopAt_mono {l l' : Nat} {rest : List Tok} (h : stopAt l rest = true) (hl : l ≤ l') : stopAt l' rest = true := by
   cases rest with
@@ -218,7 +218,7 @@ theorem stopAt_mono {l l' : Nat} {rest : List Tok} (h : stopAt l rest = true) (h
 theorem stopAt_oFollow {l : Nat} {rest : List Tok} (h : stopAt l rest = true) : oFollow rest = true := by
   cases rest with
   | nil => rfl
-  | cons t r => cases t <;> simp_all [stopAt, oFollow]
+  | cons t r => cases t <;> simp_all [stopAt, oFollow, Tok.endsExpr]
 
 theorem opOf_lvl (op : Op) : opOf op.lvl = op := by cases op <;> rfl
 theorem Op.lvl_le (op : Op) : op.lvl ≤ 2 := by cases op <;> simp [Op.lvl]
@@ -292,7 +292,7 @@ theorem parseLabels_tail (l : Nat) : ∀ (ks : List String) (rest : List Tok), s
   | [], rest, h => by
     cases rest with
     | nil => simp [labelTail, parseLabels]
-    | cons t r => cases t <;> simp_all [stopAt, labelTail, parseLabels]
+    | cons t r => cases t <;> simp_all [stopAt, labelTail, parseLabels, Tok.endsExpr]
   | k :: ks, rest, h => by
     simp [labelTail, parseLabels, parseLabels_tail l ks rest h]
 
@@ -1398,6 +1398,249 @@ theorem prepList_good (v : Val) : ∀ (es : List Expr) (neg c : Bool) (h : List 
           rw [evalList_consOpt_and, allK_append, evalList_cons, ← he, ← hl]
           simp only [op3]
           exact and3_swap _ _ _
+end
+
+/-! ## `valid` is exactly its two clauses -/
+mutual
+theorem valid_split : ∀ (e : Expr), valid e = (listsNonEmpty e && literalsInRange e)
+  | .cmp l op r => by simp [valid, listsNonEmpty, literalsInRange]
+  | .isNull l b => by simp [valid, listsNonEmpty, literalsInRange]
+  | .kinds ref ks a => by simp [valid, listsNonEmpty, literalsInRange]
+  | .neg c => by simp [valid, listsNonEmpty, literalsInRange, valid_split c]
+  | .paren c => by simp [valid, listsNonEmpty, literalsInRange, valid_split c]
+  | .join op es => by
+    simp only [valid, listsNonEmpty, literalsInRange, valids_split es]
+    cases es.isEmpty <;> simp [Bool.and_assoc]
+theorem valids_split : ∀ (es : List Expr), valids es = (listsNonEmptyAll es && literalsInRangeAll es)
+  | [] => by simp [valids, listsNonEmptyAll, literalsInRangeAll]
+  | e :: es => by
+    simp only [valids, listsNonEmptyAll, literalsInRangeAll, valid_split e, valids_split es]
+    cases listsNonEmpty e <;> cases literalsInRange e <;> cases listsNonEmptyAll es <;> cases literalsInRangeAll es <;> rfl
+end
+
+/-! ## Prepare as it is (fix7): meaning preserved for every valid term -/
+
+structure PrepFix7 (v : Val) (busy neg conj inList : Bool) (e : Expr) (h : List (List String)) (r : Option Expr) : Prop where
+  ev : and3 (allK v h) (evalOpt v r) = eval v e
+  keep : inList = false → ∃ e', r = some e'
+  len : h.length ≤ 1
+  nohoist : (busy = true ∨ neg = true ∨ conj = false) → h = []
+  same : h = [] → ∃ e', r = some e' ∧ isEmptyJoin e' = false
+  emp : ∀ op, r = some (.join op []) → op = .and
+  ne : ∀ ks ∈ h, ks ≠ []
+
+structure PrepFix7List (v : Val) (busy neg c : Bool) (es : List Expr) (h : List (List String)) (es' : List Expr) : Prop where
+  len : h.length ≤ 1
+  ne : ∀ ks ∈ h, ks ≠ []
+  nohoist : (busy = true ∨ neg = true ∨ c = false) → h = []
+  same : h = [] → es'.length = es.length ∧ ∀ op, evalList v op es' = evalList v op es
+  ev : c = true → and3 (allK v h) (evalList v .and es') = evalList v .and es
+
+theorem prepFix7_unchanged (v : Val) (e : Expr) (busy neg conj inList : Bool) (hne : isEmptyJoin e = false) :
+    PrepFix7 v busy neg conj inList e [] (some e) :=
+  ⟨by simp [allK, evalOpt, and3_true_left], fun _ => ⟨_, rfl⟩, by simp, fun _ => rfl, fun _ => ⟨_, rfl, hne⟩,
+    by intro op hh; simp only [Option.some.injEq] at hh; rw [hh] at hne; simp [isEmptyJoin] at hne, by simp⟩
+
+mutual
+theorem prepFix7_good (v : Val) : ∀ (e : Expr) (busy neg conj inList : Bool), valid e = true →
+    PrepFix7 v busy neg conj inList e (prepFix7 false busy neg conj inList e).1 (prepFix7 false busy neg conj inList e).2
+  | .cmp l op ro, busy, neg, conj, inList, _ => by
+    simpa [prepFix7] using prepFix7_unchanged v (.cmp l op ro) busy neg conj inList rfl
+  | .isNull l b, busy, neg, conj, inList, _ => by
+    simpa [prepFix7] using prepFix7_unchanged v (.isNull l b) busy neg conj inList rfl
+  | .kinds ref ks a, busy, neg, conj, inList, hv => by
+    by_cases hc : (ref = edgeSym && !neg && conj && inList && !busy && !(a && decide (2 ≤ ks.length))) = true
+    · simp only [prepFix7, hc, if_true]
+      simp only [Bool.and_eq_true, decide_eq_true_eq, Bool.not_eq_true'] at hc
+      obtain ⟨⟨⟨⟨⟨href, hneg⟩, hconj⟩, hin⟩, hbusy⟩, hany⟩ := hc
+      have hks : ks ≠ [] := by intro hh; simp [valid, hh] at hv
+      refine ⟨?_, ?_, by simp, ?_, by simp, ?_, by simpa using hks⟩
+      · simp only [allK, evalOpt, and3_true_right, eval, href]
+        cases a with
+        | false => rfl
+        | true =>
+          cases ks with
+          | nil => exact absurd rfl hks
+          | cons k ks' =>
+            cases ks' with
+            | nil => simp [evalKinds, op3, unit3]; rcases v.kind edgeSym k with _ | _ | _ <;> rfl
+            | cons k' ks'' => simp at hany
+      · intro hh; rw [hin] at hh; cases hh
+      · intro hh
+        rcases hh with hh | hh | hh
+        · rw [hh] at hbusy; cases hbusy
+        · rw [hh] at hneg; cases hneg
+        · rw [hh] at hconj; cases hconj
+      · intro op hh; simp at hh
+    · have hc' : (ref = edgeSym && !neg && conj && inList && !busy && !(a && decide (2 ≤ ks.length))) = false := by simpa using hc
+      simp only [prepFix7, hc', Bool.false_eq_true, if_false]
+      exact prepFix7_unchanged v _ busy neg conj inList rfl
+  | .neg c, busy, neg, conj, inList, hv => by
+    simp only [valid] at hv
+    have g := prepFix7_good v c busy true false false hv
+    have hnil := g.nohoist (Or.inr (Or.inl rfl))
+    obtain ⟨c', hc', _⟩ := g.same hnil
+    have hev := g.ev
+    simp only [hnil, hc', allK, evalOpt, and3_true_left] at hev
+    simp only [prepFix7, hnil, hc', Option.getD_some, negExit, Bool.false_and, Bool.false_eq_true, if_false]
+    exact ⟨by simp [allK, evalOpt, and3_true_left, eval, hev], fun _ => ⟨_, rfl⟩, by simp, fun _ => rfl,
+      fun _ => ⟨_, rfl, rfl⟩, by intro op hh; simp at hh, by simp⟩
+  | .paren c, busy, neg, conj, inList, hv => by
+    simp only [valid] at hv
+    have g := prepFix7_good v c busy neg conj false hv
+    obtain ⟨c', hc'⟩ := g.keep rfl
+    have hev := g.ev
+    have hemp := g.emp
+    have hsame := g.same
+    simp only [hc', evalOpt] at hev hemp hsame
+    simp only [prepFix7, hc', Option.getD_some]
+    refine ⟨?_, ?_, g.len, g.nohoist, ?_, ?_, g.ne⟩
+    · match c', hev, hemp with
+      | .join op [], hev, hemp =>
+        have : op = .and := hemp op rfl
+        subst this
+        cases inList <;> simp [parenExit, evalOpt, eval, evalList_nil, unit3] at hev ⊢ <;> exact hev
+      | .join op [x], hev, _ =>
+        simpa [parenExit, evalOpt, eval, evalList_cons, evalList_nil, op3_unit_right] using hev
+      | .join op (x :: y :: zs), hev, _ => simpa [parenExit, evalOpt, eval] using hev
+      | .cmp _ _ _, hev, _ => simpa [parenExit, evalOpt, eval] using hev
+      | .isNull _ _, hev, _ => simpa [parenExit, evalOpt, eval] using hev
+      | .kinds _ _ _, hev, _ => simpa [parenExit, evalOpt, eval] using hev
+      | .neg _, hev, _ => simpa [parenExit, evalOpt, eval] using hev
+      | .paren _, hev, _ => simpa [parenExit, evalOpt, eval] using hev
+    · intro hi; subst hi
+      match c' with
+      | .join op [] => exact ⟨_, rfl⟩
+      | .join op [x] => exact ⟨_, rfl⟩
+      | .join op (x :: y :: zs) => exact ⟨_, rfl⟩
+      | .cmp _ _ _ => exact ⟨_, rfl⟩
+      | .isNull _ _ => exact ⟨_, rfl⟩
+      | .kinds _ _ _ => exact ⟨_, rfl⟩
+      | .neg _ => exact ⟨_, rfl⟩
+      | .paren _ => exact ⟨_, rfl⟩
+    · intro hn
+      obtain ⟨e', he', hne⟩ := hsame hn
+      simp only [Option.some.injEq] at he'
+      subst he'
+      match c', hne with
+      | .join op [], hne => simp [isEmptyJoin] at hne
+      | .join op [x], _ => exact ⟨_, rfl, rfl⟩
+      | .join op (x :: y :: zs), _ => exact ⟨_, rfl, rfl⟩
+      | .cmp _ _ _, _ => exact ⟨_, rfl, rfl⟩
+      | .isNull _ _, _ => exact ⟨_, rfl, rfl⟩
+      | .kinds _ _ _, _ => exact ⟨_, rfl, rfl⟩
+      | .neg _, _ => exact ⟨_, rfl, rfl⟩
+      | .paren _, _ => exact ⟨_, rfl, rfl⟩
+    · intro op hh
+      match c', hh with
+      | .join op' [], hh => cases inList <;> simp [parenExit] at hh
+      | .join op' [x], hh => simp [parenExit] at hh
+      | .join op' (x :: y :: zs), hh => simp [parenExit] at hh
+      | .cmp _ _ _, hh => simp [parenExit] at hh
+      | .isNull _ _, hh => simp [parenExit] at hh
+      | .kinds _ _ _, hh => simp [parenExit] at hh
+      | .neg _, hh => simp [parenExit] at hh
+      | .paren _, hh => simp [parenExit] at hh
+  | .join op es, busy, neg, conj, inList, hv => by
+    simp only [valid, Bool.and_eq_true, Bool.not_eq_true', List.isEmpty_eq_false_iff] at hv
+    have g := prepListFix7_good v es busy neg (conj && decide (op = .and)) hv.2
+    have hlen : es.length ≠ 0 := by
+      intro hh; exact hv.1 (List.length_eq_zero_iff.mp hh)
+    simp only [prepFix7]
+    generalize hp : prepListFix7 false busy neg (conj && decide (op = .and)) es = p at g
+    obtain ⟨h0, es'⟩ := p
+    simp only at g ⊢
+    have hsameJ : h0 = [] → ∃ e', joinExit inList op es' = some e' ∧ isEmptyJoin e' = false := by
+      intro hn
+      obtain ⟨hl, _⟩ := g.same hn
+      cases es' with
+      | nil => simp at hl; exact absurd hl.symm hlen
+      | cons x xs => exact ⟨.join op (x :: xs), by simp [joinExit], rfl⟩
+    have hnoh : (busy = true ∨ neg = true ∨ conj = false) → h0 = [] := by
+      intro hh
+      apply g.nohoist
+      rcases hh with hh | hh | hh
+      · exact Or.inl hh
+      · exact Or.inr (Or.inl hh)
+      · exact Or.inr (Or.inr (by simp [hh]))
+    refine ⟨?_, fun hi => by subst hi; exact ⟨.join op es', by simp [joinExit]⟩, g.len, hnoh, hsameJ, ?_, g.ne⟩
+    · by_cases hc : (conj && decide (op = .and)) = true
+      · have hop : op = .and := by simp only [Bool.and_eq_true, decide_eq_true_eq] at hc; exact hc.2
+        subst hop
+        have hev := g.ev hc
+        cases es' with
+        | nil => cases inList <;> simp [joinExit, evalOpt, eval, evalList_nil, unit3] at hev ⊢ <;> exact hev
+        | cons x xs => simpa [joinExit, evalOpt, eval] using hev
+      · have hc' : (conj && decide (op = .and)) = false := by simpa using hc
+        have hn := g.nohoist (Or.inr (Or.inr hc'))
+        obtain ⟨hl, hev⟩ := g.same hn
+        cases es' with
+        | nil => simp at hl; exact absurd hl.symm hlen
+        | cons x xs => simp [hn, joinExit, allK, evalOpt, eval, and3_true_left, hev op]
+    · intro op' hh
+      cases es' with
+      | cons x xs => simp [joinExit] at hh
+      | nil =>
+        have hop' : op' = op := by
+          cases inList <;> simp [joinExit] at hh
+          exact hh.symm
+        subst hop'
+        by_cases hc : (conj && decide (op' = .and)) = true
+        · simp only [Bool.and_eq_true, decide_eq_true_eq] at hc; exact hc.2
+        · have hc' : (conj && decide (op' = .and)) = false := by simpa using hc
+          have hn := g.nohoist (Or.inr (Or.inr hc'))
+          obtain ⟨hl, _⟩ := g.same hn
+          simp at hl; exact absurd hl.symm hlen
+theorem prepListFix7_good (v : Val) : ∀ (es : List Expr) (busy neg c : Bool), valids es = true →
+    PrepFix7List v busy neg c es (prepListFix7 false busy neg c es).1 (prepListFix7 false busy neg c es).2
+  | [], busy, neg, c, _ => by
+    simp only [prepListFix7]
+    exact ⟨by simp, by simp, fun _ => rfl, fun _ => ⟨rfl, fun _ => rfl⟩, fun _ => by simp [allK, and3_true_left]⟩
+  | e :: es, busy, neg, c, hv => by
+    simp only [valids_cons, Bool.and_eq_true] at hv
+    have g1 := prepFix7_good v e busy neg c true hv.1
+    simp only [prepListFix7]
+    generalize hp : prepFix7 false busy neg c true e = p at g1
+    obtain ⟨h1, r1⟩ := p
+    simp only at g1 ⊢
+    have g2 := prepListFix7_good v es (busy || !h1.isEmpty) neg c hv.2
+    generalize hq : prepListFix7 false (busy || !h1.isEmpty) neg c es = q at g2
+    obtain ⟨h2, rs⟩ := q
+    simp only at g2 ⊢
+    have hone : h1 = [] ∨ h2 = [] := by
+      cases h1 with
+      | nil => exact Or.inl rfl
+      | cons a as => exact Or.inr (g2.nohoist (Or.inl (by simp)))
+    refine ⟨?_, ?_, ?_, ?_, ?_⟩
+    · rcases hone with hh | hh
+      · simpa [hh] using g2.len
+      · simpa [hh] using g1.len
+    · intro ks hks
+      simp only [List.mem_append] at hks
+      rcases hks with hks | hks
+      · exact g1.ne ks hks
+      · exact g2.ne ks hks
+    · intro hh
+      have h1n : h1 = [] := g1.nohoist hh
+      have h2n : h2 = [] := g2.nohoist (by
+        rcases hh with hh | hh | hh
+        · exact Or.inl (by simp [hh])
+        · exact Or.inr (Or.inl hh)
+        · exact Or.inr (Or.inr hh))
+      simp [h1n, h2n]
+    · intro hn
+      simp only [List.append_eq_nil_iff] at hn
+      obtain ⟨e', he', _⟩ := g1.same hn.1
+      obtain ⟨hl, hev⟩ := g2.same hn.2
+      have he := g1.ev
+      simp only [hn.1, he', allK, evalOpt, and3_true_left] at he
+      exact ⟨by simp [he', consOpt, hl], fun op => by simp [he', consOpt, evalList_cons, he, hev op]⟩
+    · intro hc
+      have he := g1.ev
+      have hl := g2.ev hc
+      rw [evalList_consOpt_and, allK_append, evalList_cons, ← he, ← hl]
+      simp only [op3]
+      exact and3_swap _ _ _
 end
 
 end Dawgs.C10
